@@ -34,7 +34,9 @@ EXPLANATION = (
     ' '
     'R-C17.11 _save_project_sig saves the Version on every normal path.'
     ' '
-    'R-C17.12 EvolveAppTask.execute runs its SQL whenever there is some (guards mention only `sql`).')
+    'R-C17.12 EvolveAppTask.execute runs its SQL whenever there is some (guards mention only `sql`).'
+    ' '
+    'R-C17.13 where _build_batches folds a batch into the previous one, the previous batch is written by merge_dicts() alone and nothing is popped from the incoming batch first (dict.update replaces per-task evolution lists).')
 NOT_DECIDED = (
     'That the payload (evolutions, migrations, model names) equals exactly '
     'what was executed between the paired signals for every run.')
@@ -809,7 +811,79 @@ def r12_task_sql_runs_whenever_there_is_some(ctx):
     ctx.floor('run_sql calls in EvolveAppTask.execute', n, 1)
 
 
+def r13_consolidation_only_through_merge_dicts(ctx):
+    """applying_evolution / applied_evolution announce, per task, the
+    evolutions of the batch; Evolver.evolve() records *all* of a task's new
+    evolutions.  The two agree only if a task's labels from several graph
+    nodes that end up in one batch are accumulated: merge_dicts() extends
+    the per-task lists recursively, dict.update() replaces them.  In the
+    branch of _build_batches that folds a batch into the previous one, the
+    previous batch is written by merge_dicts() alone and the incoming batch
+    reaches it whole (nothing popped or deleted from it first)."""
+    ctx.rule('R-C17.13')
+    p = ctx.program
+    f = p.func(TASK, 'EvolveAppTask._build_batches')
+    g = ctx.cfg(f)
+    n_sites = 0
+    for m, c in nodes_with_call(g, 'merge_dicts'):
+        if len(c.args) != 2 or not all(isinstance(a, ast.Name)
+                                       for a in c.args):
+            continue
+        prev, new = c.args[0].id, c.args[1].id
+        tests = [t for t in g.nodes if t.kind in ('test', 'operand') and
+                 t.ast is not None and g.guarded_by(m, t, 'T')]
+        if not tests:
+            continue
+        n_sites += 1
+        branch = [n for n in g.nodes if n is not m and n.kind == 'stmt' and
+                  any(g.guarded_by(n, t, 'T') for t in tests)]
+        bad = []
+        for n in branch:
+            for x in ast.walk(n.ast):
+                if isinstance(x, ast.Call) and \
+                        isinstance(x.func, ast.Attribute):
+                    recv = unparse(x.func.value)
+                    names = {y.id for y in ast.walk(x.func.value)
+                             if isinstance(y, ast.Name)}
+                    if x.func.attr in ('pop', 'popitem', 'clear') and \
+                            new in names:
+                        bad.append((n, 'takes entries out of the incoming '
+                                    'batch (%s) before it is merged' % recv))
+                    if x.func.attr in ('update', '__setitem__') and \
+                            prev in names:
+                        bad.append((n, 'writes the previous batch with '
+                                    '%s.%s(): an existing per-task entry is '
+                                    'replaced, not extended' % (
+                                        recv[:40], x.func.attr)))
+                if isinstance(x, ast.Delete) and any(
+                        isinstance(y, ast.Name) and y.id == new
+                        for t_ in x.targets for y in ast.walk(t_)):
+                    bad.append((n, 'deletes entries of the incoming batch'))
+                if isinstance(x, (ast.Assign, ast.AugAssign)):
+                    tg = x.targets if isinstance(x, ast.Assign) else \
+                        [x.target]
+                    for t_ in tg:
+                        if isinstance(t_, ast.Subscript) and any(
+                                isinstance(y, ast.Name) and y.id == prev
+                                for y in ast.walk(t_.value)):
+                            bad.append((n, 'assigns into the previous batch '
+                                        'directly'))
+        for n, why in bad:
+            ctx.finding(f, n.ast, 'consolidating a batch into the previous '
+                        'one %s: a task whose evolutions come from two '
+                        'graph nodes of the batch is announced (and '
+                        'executed) with only the later ones, while all of '
+                        'them are recorded as applied' % why,
+                        key='batch-consolidation-bypasses-merge')
+        if not bad:
+            ctx.ok(f, 'the previous batch is extended by merge_dicts() '
+                   'alone', c)
+    ctx.floor('merge_dicts consolidation sites in _build_batches',
+              n_sites, 1)
+
+
 def run(ctx):
+    r13_consolidation_only_through_merge_dicts(ctx)
     r12_task_sql_runs_whenever_there_is_some(ctx)
     r11_version_saved_on_every_path(ctx)
     r10_saved_signature_is_the_evolved_one(ctx)
